@@ -25,6 +25,11 @@ class ReplayMismatch(Exception):
     """The concrete run left the path the model was produced on."""
 
 
+class ReplayDone(BaseException):
+    """The replay reproduced a failing obligation; nothing after it is
+    covered by the model."""
+
+
 # ---------------------------------------------------------------------------
 # environment stubs shared by both worlds (they dispatch to the current world)
 # ---------------------------------------------------------------------------
@@ -391,6 +396,7 @@ class ConcreteWorld(WorldBase):
         self.checked = 0
         self.fresh_n = {}
         self.strict = strict
+        self.stop_on_failure = False
 
     def _val(self, name, sort):
         v = self.model.get(name)
@@ -437,11 +443,15 @@ class ConcreteWorld(WorldBase):
         ok = bool(c)
         if not ok:
             self.failures.append((label, detail))
+            if self.stop_on_failure:
+                raise ReplayDone()
         return ok
 
     def fail(self, label, detail):
         self.checked += 1
         self.failures.append((label, detail))
+        if self.stop_on_failure:
+            raise ReplayDone()
 
     def ok(self, label):
         self.checked += 1
